@@ -130,7 +130,7 @@ var props = map[string]*propCfg{
 	},
 	"C02": {
 		Harness: "hcore", Level: "exploration", OnePerProcess: true,
-		QuickRuns: 3000, QuickBudgetS: 120, ThoroughRuns: 200000, ThoroughBudgetS: 1800,
+		QuickRuns: 6000, QuickBudgetS: 200, ThoroughRuns: 200000, ThoroughBudgetS: 1800,
 		WatchdogSlackS: 120, DetSeedsQuick: 0, DetSeedsThorough: 0,
 		Rule:        "one run = one OS process booting the whole core in a bubble: 1-3 agents, a generated workflow of 0-4 tasks (critical or not, direct/FairMQ, each with a drawn start behaviour ok/late/fails/never and a drawn outcome ok/error-stay/error-state/silent/undeliverable/dies per CONFIGURE/START/STOP/RESET), NewEnvironment then 1-6 ControlEnvironment requests then DestroyEnvironment, drawn delivery latencies; oracle: each request succeeds iff every critical active task acknowledged (reference computed from the drawn outcomes), destination never reported on failure, environment in ERROR after a failure, error returned, every request returns; non-trivial = at least one task; distinct = distinct (scenario, interleaving); in a third of the runs MESSAGE calls take 0/30/80 ms and the simulated master forwards them half way through, so a quick executor answers before the call returns",
 		Real:        []string{"core.RpcServer methods (NewEnvironment, ControlEnvironment, DestroyEnvironment, GetEnvironments, GetTasks, CleanupTasks)", "core/environment: Manager (create, teardown, event loop), Environment FSM, transition_*.go bodies", "core/task: Manager (acquire/configure/transition/release/kill, status handling), scheduler event handlers (offers, updates, messages, failure, reconciliation), roster, matching", "core/controlcommands", "core/workflow (load from a generated local git repository, role tree, template processing)", "core/repos (local repository)", "apricot/local + cfgbackend.ConsulSource + hashicorp consul api", "mesos-go controller, event/call rules, ack handling", "looplab/fsm (instrumented copy)"},
